@@ -20,21 +20,21 @@ type CaseSpec struct {
 
 // CaseResult is what one history produced; the check driver merges these.
 type CaseResult struct {
-	Spec       CaseSpec           `json:"spec"`
-	BlocksRun  int                `json:"blocks_run"`
-	TxAccepted int                `json:"tx_accepted"`
-	TxRejected int                `json:"tx_rejected"`
-	Dead       bool               `json:"dead"`
-	Death      string             `json:"death,omitempty"`
-	Violations []Violation        `json:"violations"`
-	Buckets    []string           `json:"buckets"`  // distinct feature buckets at which a deciding oracle evaluated
-	Counters   map[string]int     `json:"counters"` // monitor evaluations etc.
-	MsgOk      map[string]int     `json:"msg_ok"`
-	MsgRej     map[string]int     `json:"msg_rej"`
-	Samples    []string           `json:"samples"`
-	WallS      float64            `json:"wall_s"`
-	AppHash    string             `json:"app_hash"`
-	Inconclusive string           `json:"inconclusive,omitempty"`
+	Spec         CaseSpec       `json:"spec"`
+	BlocksRun    int            `json:"blocks_run"`
+	TxAccepted   int            `json:"tx_accepted"`
+	TxRejected   int            `json:"tx_rejected"`
+	Dead         bool           `json:"dead"`
+	Death        string         `json:"death,omitempty"`
+	Violations   []Violation    `json:"violations"`
+	Buckets      []string       `json:"buckets"`  // distinct feature buckets at which a deciding oracle evaluated
+	Counters     map[string]int `json:"counters"` // monitor evaluations etc.
+	MsgOk        map[string]int `json:"msg_ok"`
+	MsgRej       map[string]int `json:"msg_rej"`
+	Samples      []string       `json:"samples"`
+	WallS        float64        `json:"wall_s"`
+	AppHash      string         `json:"app_hash"`
+	Inconclusive string         `json:"inconclusive,omitempty"`
 }
 
 // Stats collects buckets/counters for a case; monitors write into it.
@@ -47,8 +47,8 @@ func NewStats() *Stats { return &Stats{buckets: map[string]struct{}{}, Counters:
 func (s *Stats) Bucket(format string, a ...interface{}) {
 	s.buckets[fmt.Sprintf(format, a...)] = struct{}{}
 }
-func (s *Stats) Count(k string)        { s.Counters[k]++ }
-func (s *Stats) Add(k string, n int)   { s.Counters[k] += n }
+func (s *Stats) Count(k string)      { s.Counters[k]++ }
+func (s *Stats) Add(k string, n int) { s.Counters[k] += n }
 func (s *Stats) BucketList() []string {
 	out := make([]string, 0, len(s.buckets))
 	for k := range s.buckets {
@@ -66,6 +66,9 @@ type PropDef struct {
 	Monitors func(st *Stats) []Monitor
 	Cases    map[string]int // tier -> number of histories
 	Blocks   map[string]int // tier -> blocks per history
+	// Setup is called once the chain exists (attach extra observers); Opts chooses node-local options
+	Setup func(c *Chain, st *Stats, r *Rng)
+	Opts  func() AppOpts
 	// Finish runs after the generated blocks (e.g. the settlement phase of the dispute properties)
 	Finish func(c *Chain, g *Gen, mons []Monitor)
 	// DeathIsViolation: a failing block is a violation of this property (C02); otherwise it ends the case quietly.
@@ -146,8 +149,15 @@ func RunCase(spec CaseSpec) (res CaseResult) {
 	if DebugTracer != nil {
 		mons = append(mons, DebugTracer)
 	}
-	c := NewChain(w, AppOpts{}, mons...)
+	opts := AppOpts{}
+	if def.Opts != nil {
+		opts = def.Opts()
+	}
+	c := NewChain(w, opts, mons...)
 	defer c.Close()
+	if def.Setup != nil {
+		def.Setup(c, st, r)
+	}
 	g := NewGen(c, caseSeed, prof)
 	c.Monitors = append(c.Monitors, g)
 	for _, f := range prof.Fragments {
